@@ -25,7 +25,7 @@ RUNS = {"quick": 220, "thorough": 5000}
 RUN_WALL_CAP = 300.0
 REQUIRED_PROBES = {"quick": ["kets_list", "density_list", "hierarchy_not_last", "hierarchy_then_ppt", "level2", "dims_2x3", "complex_states", "bell_list", "primal_value", "local_unitary_checked", "two_lists_same_shape", "same_ensemble_parties_swapped"], "thorough": ["kets_list", "density_list", "hierarchy_not_last", "hierarchy_then_ppt", "level2", "level2_2x3", "dims_2x3", "complex_states", "bell_list", "primal_value", "local_unitary_checked"]}
 COMPONENTS = {"real": ["toqito.state_opt.ppt_distinguishability (primal and dual)", "toqito.state_opt.symmetric_extension_hierarchy", "toqito.state_opt.state_distinguishability", "toqito.channels.partial_trace / partial_transpose (cvxpy branch)", "toqito.perms.symmetric_projection", "picos + cvxopt, cvxpy + SCS/Clarabel"], "stub": []}
-RULE = ("one run = one caller-owned list of 2..4 states on 2x2 or 2x3 (column kets / density matrices / 1-D vectors where accepted; real and complex; arbitrary prior; or the four Bell kets) reused by 3..6 calls in seeded order: "
+RULE = ("one run = one caller-owned list of 2..4 states on 2x2, 2x3 or 3x2, sometimes with a second list used in between (same shape, another shape, or the same ensemble with the two parties written in the other order) (column kets / density matrices / 1-D vectors where accepted; real and complex; arbitrary prior; or the four Bell kets) reused by 3..6 calls in seeded order: "
         "ppt_distinguishability (party 0 or 1, primal or dual), symmetric_extension_hierarchy (level 1 or 2, dim as list / scalar / omitted), state_distinguishability; "
         "non-trivial = the list holds kets (the form the hierarchy converts) and is used by >=2 operations with the hierarchy not last; distinct = distinct digest of (list, prior, operation sequence)")
 SHRINK_ORDER = ["config", "states", "ops"]
